@@ -10,12 +10,15 @@ import (
 	"sort"
 	"strings"
 	"sync"
+	"time"
 
 	kv "github.com/XiXi-2024/xixi-kv"
 	"github.com/XiXi-2024/xixi-kv/index"
+	"github.com/bwmarrin/snowflake"
 	"github.com/XiXi-2024/xixi-kv/verifrt/iorec"
 	"github.com/XiXi-2024/xixi-kv/verifrt/sched"
 	"github.com/XiXi-2024/xixi-kv/verifrt/vsync"
+	"github.com/XiXi-2024/xixi-kv/verifrt/vtime"
 )
 
 func stack() string { return string(debug.Stack()) }
@@ -140,6 +143,11 @@ func trimStack(s string) string {
 
 func beginExecution() {
 	progressTick.Add(1)
+	// the clock is harness-owned in every engine: datatype versions/expiry and (through the rewritten
+	// snowflake import) batch ids are a deterministic function of the execution
+	vtime.Owned = true
+	vtime.Reset()
+	snowflake.VerifNow = vtime.Now
 	vsync.NewGeneration()
 	iorec.Reset()
 	sched.SetMode(sched.ModeSeq)
@@ -149,6 +157,7 @@ func beginExecution() {
 func (w *World) Open() error { return w.OpenWith(w.Cfg) }
 
 func (w *World) OpenWith(c Cfg) error {
+	vtime.Advance(2 * time.Millisecond) // a (re)start takes at least 2 ms of wall-clock time (stated assumption)
 	var db *kv.DB
 	err := w.guard(func() error {
 		var e error
@@ -191,6 +200,8 @@ func (w *World) value(key, vc string, arg int) []byte {
 		return fill(arg)
 	case "L": // large relative to the file: two of them never fit in one file
 		return fill(int(w.Cfg.FileSize) * 3 / 10)
+	case "G": // 40% of the file: one fits next to a sealing-record reserve, two do not
+		return fill(int(w.Cfg.FileSize) * 40 / 100)
 	case "H": // 45% of the file: two of them exceed the limit
 		return fill(int(w.Cfg.FileSize) * 45 / 100)
 	case "X": // alone exceeds the limit
